@@ -2,6 +2,7 @@ package main
 
 import (
 	"fmt"
+	"github.com/bluenviron/gortsplib/v5/pkg/format"
 	"net"
 	"reflect"
 	"regexp"
@@ -92,7 +93,13 @@ func runE2E(c e2eCase) (res e2eResult) {
 			wmu.Unlock()
 		}
 	}
-	srv, app, err := env.StartServer(sysx.ServerOpts{Desc: sysx.DefaultDesc(c.N), NoStream: c.Flow == "record"})
+	served := sysx.DefaultDesc(c.N)
+	if c.Back > 0 {
+		bc := &description.Media{Type: description.MediaTypeAudio, IsBackChannel: true, Formats: []format.Format{&format.G711{PayloadTyp: 8, MULaw: false, SampleRate: 8000, ChannelCount: 1}}}
+		at := c.Back - 1
+		served.Medias = append(served.Medias[:at:at], append([]*description.Media{bc}, served.Medias[at:]...)...)
+	}
+	srv, app, err := env.StartServer(sysx.ServerOpts{Desc: served, NoStream: c.Flow == "record"})
 	if err != nil {
 		panic(fmt.Sprint("harness: server start: ", err))
 	}
@@ -218,7 +225,16 @@ func runE2E(c e2eCase) (res e2eResult) {
 		}
 		baseURL = desc.BaseURL
 		clientMedias = desc.Medias
-		serverMedias = func(*gortsplib.ServerSession) []*description.Media { return app.Stream.Desc.Medias }
+		serverMedias = func(*gortsplib.ServerSession) []*description.Media {
+			// the medias the client was shown, in the server's order
+			var out []*description.Media
+			for _, m := range app.Stream.Desc.Medias {
+				if !m.IsBackChannel {
+					out = append(out, m)
+				}
+			}
+			return out
+		}
 	} else {
 		desc := sysx.DefaultDesc(c.N)
 		_, aerr := cl.Announce(u, desc)
